@@ -24,6 +24,18 @@ type Behav struct {
 	Res      string `json:"res"`
 	WaitCtx  bool   `json:"wait_ctx"`
 	OnCancel string `json:"on_cancel,omitempty"`
+	// Progress: SendProgress calls the handler makes when it starts (before anything else).
+	Progress int `json:"progress,omitempty"`
+}
+
+// ScriptStep is one further call of a CallProgressive's sendProg callback: after D ms it returns a
+// chunk with progress=true ("chunk"), the final chunk ("final") or an error ("err"); "ctx" waits
+// for the caller's context to end and returns its error. The first call (made by the API
+// goroutine) returns at once, with progress=true iff the script is not empty; when the script
+// is used up the next call returns the final chunk at once.
+type ScriptStep struct {
+	D int    `json:"d"`
+	K string `json:"k"`
 }
 
 // DeserEntry records what the real serializer made of one byte string (the
@@ -57,11 +69,13 @@ type Stim struct {
 	T    int    `json:"t"`
 	Stim string `json:"stim"` // api | router | rclose | cancel | close
 	G    int    `json:"g,omitempty"`
-	Op   string `json:"op,omitempty"`
+	Op   string `json:"op,omitempty"` // … | call | callprog
 	Name string `json:"name,omitempty"`
 	Prog bool   `json:"prog,omitempty"`
-	Kind string `json:"kind,omitempty"` // cancel: canceled | deadline
-	M    []any  `json:"m,omitempty"`
+	// Script: op callprog only.
+	Script []ScriptStep `json:"script,omitempty"`
+	Kind   string       `json:"kind,omitempty"` // cancel: canceled | deadline
+	M      []any        `json:"m,omitempty"`
 }
 
 type Scenario struct {
@@ -323,6 +337,10 @@ func canonCMsg(m wamp.Message) []any {
 		return []any{66, int64(x.Request), int64(x.Registration)}
 	case *wamp.Call:
 		rp, _ := x.Options[wamp.OptReceiveProgress].(bool)
+		if more, ok := x.Options[wamp.OptProgress].(bool); ok {
+			// a CALL of a progressive call (CallProgressive)
+			return []any{48, int64(x.Request), string(x.Procedure), rp, more}
+		}
 		return []any{48, int64(x.Request), string(x.Procedure), rp}
 	case *wamp.Cancel:
 		mode, _ := x.Options[wamp.OptMode].(string)
